@@ -34,7 +34,8 @@ def run(ch: Checker) -> None:
     ch.rule('C20.4', 'threadless: on every way round the `while True` of _run_forever the tick counter that feeds the elapsed-time test is incremented exactly once inside the loop itself; '
                      '_cleanup_inactive() runs exactly under `ticks * (select + wait timeout) >= cleanup_inactive_timeout`; the counter is reset only after the reaper ran; '
                      'threaded: is_inactive() is evaluated on every iteration of run() and select() has a finite timeout', 4)
-    ch.rule('C20.5', '--timeout is declared with default DEFAULT_TIMEOUT and is_inactive compares against flags.timeout', 1)
+    ch.rule('C20.5', '--timeout is declared with default DEFAULT_TIMEOUT; FlagParser.initialize stores the configured value in args.timeout as it is (no int()/round()/floor narrowing: '
+                     'an embedding application may configure 2.5 s, and 0.5 must not become 0)', 2)
 
     # ---------------- C20.1
     idle_predicate_check(ch, 'C20.1')
@@ -270,3 +271,12 @@ def run(ch: Checker) -> None:
             kw = {k.arg: norm(k.value) for k in c.keywords}
             okf = kw.get('default') == 'DEFAULT_TIMEOUT' and kw.get('type') == 'int'
     ch.check(okf, 'C20.5', None, '--timeout', '--timeout: int, default DEFAULT_TIMEOUT', '--timeout flag is no longer declared as int with default DEFAULT_TIMEOUT', module_rel=ts.relpath)
+    fi = prog.method('FlagParser', 'initialize')
+    tsites = [st for st in walk_no_nested(fi.node) if isinstance(st, ast.Assign) and len(st.targets) == 1 and attr_chain(st.targets[0]) == 'args.timeout']
+    bad5 = None
+    for st in tsites:
+        narrowing = [attr_chain(c.func) for c in ast.walk(st.value) if isinstance(c, ast.Call) and (attr_chain(c.func) or '') in ('int', 'round', 'math.floor', 'math.ceil', 'math.trunc', 'floor', 'ceil', 'trunc', 'abs', 'max', 'min')]
+        reads = any(isinstance(c, ast.Call) and attr_chain(c.func) == 'opts.get' and c.args and isinstance(c.args[0], ast.Constant) and c.args[0].value == 'timeout' for c in ast.walk(st.value))
+        if narrowing or not reads:
+            bad5 = 'args.timeout = %s: the configured timeout is %s' % (norm(st.value)[:70], 'passed through %s, which changes fractional values (2.5 -> 2: a connection that had traffic 2.2 s ago is reaped)' % narrowing if narrowing else 'not taken from the `timeout` option')
+    ch.check(bad5 is None and len(tsites) == 1, 'C20.5', fi, 'args.timeout', 'the configured timeout reaches flags.timeout unchanged', bad5 or 'args.timeout is not assigned exactly once in FlagParser.initialize')
